@@ -9,6 +9,7 @@ import GfaModel.Multiply
 import GfaModel.Convert
 import GfaModel.Components
 import GfaModel.LinearPaths
+import GfaModel.MultiplyGraph
 import GfaModel.Seq
 import GfaModel.Line
 import GfaModel.Levels
@@ -308,6 +309,10 @@ def step (d : DState) (cmd : String) (args : List (List Char)) : DState × Strin
     (d, match G.Cap.capturedPath d.g (str p) with
         | .ok path => "ok " ++ "|".intercalate (path.map (G.Cap.El.show d.g))
         | .error e => "gerr " ++ e.str)
+  | "g.multiply", [sn, k, names] =>
+    (match natOf? k with
+     | some kk => gres d (G.multiply d.g (str sn) kk (if names.isEmpty then [] else (splitOnC ',' names).map str))
+     | none => (d, "bad-op"))
   | "g.lpaths", [] => (d, "ok " ++ ";".intercalate ((G.linearPaths d.g).map G.showPath))
   | "g.lpath", [s] =>
     (d, "ok " ++ G.showPath (G.linearPath (G.otherEnds d.g) (G.pathFuel d.g) (str s) []).1)
